@@ -449,6 +449,9 @@ class Interp:
                         return v, els[lo_hi[0]]
                     if all(e[0] == 'int' and e[1].is_const() for e in els):
                         cs = [e[1].const for e in els]
+                        if 2 <= len(cs) <= 64 and all(cs[i + 1] - cs[i] == cs[1] - cs[0] for i in range(len(cs) - 1)):
+                            # an affine table (`[0, 2, 4, 6, 8]`): the element is step * index + first, exactly
+                            return v, ('int', idx.scale(cs[1] - cs[0]) + cs[0])
                         a = ATOMS.fresh('elem', min(cs), max(cs), defn=('arr_elem', v[2], idx))
                         return v, ('int', Lin.atom(a))
                     return v, ('top', None, 'arr-elem', '?')
@@ -1018,7 +1021,7 @@ class Interp:
         if not failing:
             return [f"{c!r} <= 0" for c in sorted(w.store.cons, key=repr)][:60]
         rel, _ = _relevant(w.store.cons, atoms)
-        out = [f"{c.pretty()} <= 0" for c in rel][:12]
+        out = [f"{c.pretty()} <= 0" for c in rel][:int(os.environ.get('VERIF_STATE_N', '12'))]
         return out
 
     def assume(self, w, form, truth):
@@ -1165,6 +1168,9 @@ class Interp:
                         w.mem[root] = new
                     elif ov[0] == 'agg' and v in ov[1]:
                         w.mem[root] = ('agg', tuple(new if x == v else x for x in ov[1]))
+            rh = self.cfg.get('refine_hook')
+            if rh:
+                rh(self, w, loc, new)
         return True
 
     def _has_identity(self, v):
@@ -1488,6 +1494,10 @@ class Interp:
         if hook:
             hook(self, w, frame, site, key, args)
         # a function item (or tuple-variant constructor) used as a function value: `<fn item as Fn*>::call*(f, (a, b))`
+        if fn.get('trait') in FN_TRAITS and args and args[0][0] == 'ref' and len(args) == 2 and args[0][1].root in w.mem:
+            fv = self.read(w, args[0][1])
+            if fv[0] == 'fn':
+                args = [fv, args[1]]        # `call_mut(&mut f, ..)` on a function item held in a variable
         if fn.get('trait') in FN_TRAITS and args and args[0][0] == 'fn' and len(args) == 2:
             tup = args[1]
             if tup[0] == 'top':
@@ -1495,16 +1505,31 @@ class Interp:
             rest = list(tup[1]) if tup[0] == 'agg' else ([] if tup == UNIT else None)
             if rest is not None:
                 return self.call_fn(w, frame, bb, term, site, args[0][1], rest, dest_ty)
+        ov = self.cfg.get('call_override', {}).get(key)
+        if ov:
+            res = ov(self, w, frame, site, args)
+            if res is not None:
+                return res
         # panics
         if stdsum.is_panic(key):
             self.fail(w, frame, site, 'panic', f"reachable call to {key}", {'macros': term['span'].get('macros')})
             return []
         # in-crate body: abstract inlining
         body = self.facts.bodies.get(name)
+        if fn.get('mono_key') and self.facts.ext.get(fn['mono_key']) is not None:
+            # in-crate function with const generic parameters, called with concrete ones: interpret the monomorphised instance
+            # (array lengths are known there), not the generic body
+            body = self.facts.ext[fn['mono_key']]
         if body is None and fn.get('trait'):
             impl = self.trait_impls.get(strip_generics(fn['name']))
             if impl:
                 body = self.facts.body(impl)
+        if body is None and fn.get('ikind') == 'closure_once_shim' and fn.get('targs') and fn['targs'][0].get('k') == 'closure':
+            # `FnOnce::call_once` on a closure whose own kind is Fn / FnMut (a closure bound to a variable first): the
+            # compiler's shim takes the closure by value and calls its body with a reference to it
+            body = self.facts.bodies.get(fn['targs'][0].get('name'))
+            if body is not None and body.def_kind != 'Closure':
+                body = None
         if body is not None and body.def_kind == 'Closure' and fn.get('trait') in FN_TRAITS:
             return self.call_closure(w, frame, bb, site, body, args)
         if body is not None and not body.derived and key not in self.cfg.get('no_inline', ()):
@@ -1518,7 +1543,11 @@ class Interp:
         # interpreter has no transfer function for, undo the attempt and fall back to an unknown result
         ebody = self.facts.ext.get(fn.get('ext_key')) if fn.get('ext_key') else None
         if ebody is not None and not self.cfg.get('no_ext_inline'):
-            res = self.try_ext_inline(w, frame, bb, site, ebody, args, key)
+            eargs = args
+            if ebody.def_kind == 'Closure' and fn.get('trait') in FN_TRAITS:
+                # a closure defined in core (`|a, b| a + b` of `Sum::sum`, the closure `map_fold` builds): `call*(closure, (a, b))`
+                w, eargs = self.closure_args(w, ebody, args)
+            res = self.try_ext_inline(w, frame, bb, site, ebody, eargs, key)
             if res is not None:
                 return res
         # unknown callee: result unknown, owned arguments are consumed by it
@@ -1558,6 +1587,10 @@ class Interp:
     def call_closure(self, w, frame, bb, site, body, args):
         """<closure as Fn*>::call*(closure, (a, b, ..)): the body takes (env, a, b, ..); an Fn/FnMut closure called through
         call_once receives its environment by reference"""
+        w, cargs = self.closure_args(w, body, args)
+        return self.inline(w, frame, bb, site, body, cargs)
+
+    def closure_args(self, w, body, args):
         env = args[0]
         tup = args[1] if len(args) > 1 else UNIT
         if tup[0] == 'agg':
@@ -1574,7 +1607,7 @@ class Interp:
             root = ('O', Obj.fresh())
             w.mem[root] = env
             env = ('ref', Loc(root))
-        return self.inline(w, frame, bb, site, body, [env] + rest)
+        return w, [env] + rest
 
     def try_ext_inline(self, w, frame, bb, site, body, args, key):
         snap = dict(self.unmodelled)
@@ -1673,6 +1706,10 @@ class Interp:
                         return ('v', var, sub)
                 return ('v', var)
             return None
+        if t == 'agg' and len(v[1]) == 2 and depth == 0 and all(x[0] == 'int' and x[1].is_const() for x in v[1]) \
+                and 0 <= v[1][1][1].const - v[1][0][1].const <= 8 and v[1][1][1].const <= 16:
+            # `for i in 0..3`: a range with constant bounds and a few steps left unrolls the same way
+            return ('it', v[1][0][1].const, v[1][1][1].const)
         if t == 'agg' and depth < 3:
             ts = tuple(self.tag(x, depth + 1) for x in v[1])
             return ts if any(x is not None for x in ts) else None
@@ -1761,6 +1798,23 @@ class Interp:
         head_state = {}        # head bb -> {key: world}   (monotone, widened)
         head_count = {}
         last_input = {}        # bb -> list of world ids processed last time
+        peel_forks = {}
+        peel_marks = {}        # (deciding block, successor inside the loop) -> head: crossing it means "the loop body runs"
+        if self.cfg.get('peel', False):
+            succ = body.succ()
+            for h in heads:
+                loop = body.natural_loop(h)
+                dblk, seen_ = h, set()
+                while dblk not in seen_:
+                    seen_.add(dblk)
+                    ins = [t_ for t_ in succ.get(dblk, ()) if t_ in loop]
+                    outs = [t_ for t_ in succ.get(dblk, ()) if t_ not in loop]
+                    if outs or len(ins) != 1:
+                        break
+                    dblk = ins[0]
+                for t_ in succ.get(dblk, ()):
+                    if t_ in loop:
+                        peel_marks.setdefault((dblk, t_), []).append(h)
         pending = {0}
         rets = {}
         steps = 0
@@ -1776,6 +1830,25 @@ class Interp:
             incoming = [(-1, w0)] if bb == 0 else []
             for p in pred.get(bb, ()):
                 incoming.extend((p, x) for x in edge_out.get((p, bb), ()))
+            if bb in heads and self.cfg.get('peel', False):
+                # first-iteration peeling (see below): "the loop has not run yet" / "has run at least once" is a ghost, hence part of
+                # the partition key, in the loop and after it
+                gk = ('G', ('iters', frame.fid, bb))
+                marked = []
+                for p, w in incoming:
+                    if order.get(p, -1) >= order.get(bb, 0):
+                        marked.append((p, w))        # back edge: the body has run (marked when it was entered)
+                        continue
+                    gv = ('enum', ((0, ()),))
+                    if w.mem.get(gk) != gv:
+                        c = peel_forks.get(id(w))
+                        if c is None or c[0] is not w:
+                            w2 = w.fork()
+                            w2.mem[gk] = gv
+                            c = peel_forks[id(w)] = (w, w2)
+                        w = c[1]
+                    marked.append((p, w))
+                incoming = marked
             for level in (0, 1, 2):
                 groups = {}
                 edge_groups = {}
@@ -1789,22 +1862,27 @@ class Interp:
             inputs = []
             if bb in heads:
                 hs = head_state.setdefault(bb, {})
+                peel = self.cfg.get('peel', False)
                 for k in groups:
-                    H = hs.get(k)
                     for p_, bw in sorted(edge_groups[k].items()):
                         is_back = order.get(p_, -1) >= order.get(bb, 0)
+                        # first-iteration peeling: the worlds entering the loop and the worlds coming round the back edge have
+                        # separate head states, so what is only true on entry (a variable still holds its initial value) is
+                        # not lost in the first pass through the body
+                        hk = (k, is_back) if peel else k
+                        H = hs.get(hk)
                         for N in bw:
                             if H is None:
                                 H = N
                                 continue
                             if self.absorbs(H, N):
                                 continue
-                            n = head_count.get((bb, k), 0)
+                            n = head_count.get((bb, hk), 0)
                             if is_back:
-                                head_count[(bb, k)] = n + 1
+                                head_count[(bb, hk)] = n + 1
                             self.head_points.add((frame.fid, bb, 0))
                             H, _ = self.join(H, N, (frame.fid, bb, 0), widen=(is_back and n >= 2), relational=True)
-                    hs[k] = H
+                        hs[hk] = H
                 if len(hs) > self.max_worlds:
                     raise AnalysisError(f"too many partitions at loop head bb{bb} of {body.key}")
                 inputs = list(hs.values())
@@ -1853,9 +1931,13 @@ class Interp:
                                         c_ = self.merge_cost(b_[i_], b_[j_])
                                         if best is None or c_ < best:
                                             best, bi, bj = c_, i_, j_
+                            if os.environ.get('VERIF_DEBUG_MERGE'):
+                                print('MERGE', body.key.split('::')[-1], 'bb', bb, 'bucket sizes', [len(q) for q in buckets], 'pair', bi, bj, 'key', k)
                             x = b_.pop(bj)
                             b_[bi], _ = self.join(b_[bi], x, (frame.fid, bb, jn), relational=self.cfg.get('relational_all', False))
                         else:
+                            if os.environ.get('VERIF_DEBUG_MERGE'):
+                                print('MERGE-X', body.key.split('::')[-1], 'bb', bb, 'bucket sizes', [len(q) for q in buckets], 'key', k)
                             x = buckets.pop()
                             buckets[-1][-1], _ = self.join(buckets[-1][-1], x[0], (frame.fid, bb, jn), relational=self.cfg.get('relational_all', False))
                         jn += 1
@@ -1896,6 +1978,8 @@ class Interp:
                     if tgt == 'return':
                         rets.setdefault(bb, []).append(w2)
                         continue
+                    for h_ in peel_marks.get((bb, tgt), ()):
+                        w2.mem[('G', ('iters', frame.fid, h_))] = ('enum', ((1, ()),))
                     lv = live[tgt]
                     for root in [r for r in w2.mem if r[0] == 'L' and r[1] == frame.fid and r[2] not in lv]:
                         del w2.mem[root]
